@@ -40,7 +40,33 @@ Inductive c01case :=
 | CHist (ops : list op) (observed : list oobs)
 (* the same requests against an unversioned instance: instanceSelector evaluates them at the
    repo's root version whatever uuid they name, and applies no committed-node check *)
-| CUnv (ops : list op) (observed : list oobs).
+| CUnv (ops : list op) (observed : list oobs)
+(* exhaustive placement sweep over one DAG with nodes 1..n: for every placement code
+   p in [0,3^n) (digit i of p in base 3 = nothing / value 100+i / tombstone at node i+1) and
+   every queried version v in 1..n, in that order, one observation code:
+   0 = not found, 1 = error, 2+u = the value of version u *)
+| CEnum (g : dagl) (n : nat) (codes : list N).
+
+Fixpoint place_entries (n : nat) (i : N) (p : N) : list (V * entry) :=
+  match n with
+  | O => []
+  | S n' =>
+    let d := p mod 3 in
+    let rest := place_entries n' (i + 1) (p / 3) in
+    if d =? 1 then (i, Val (100 + i)) :: rest
+    else if d =? 2 then (i, Tomb) :: rest
+    else rest
+  end.
+
+Definition code_of (r : rres) : N :=
+  match r with RNone => 0 | RConflict => 1 | RFound u _ => 2 + u | RFuel => 1000 end.
+
+Fixpoint enum_codes (f : V -> list (V * entry) -> rres) (n : nat) (np : nat) (p : N) : list N :=
+  match np with
+  | O => []
+  | S np' =>
+    map (fun v => code_of (f (N.of_nat v) (place_entries n 1 p))) (seq 1 n) ++ enum_codes f n np' (p + 1)
+  end.
 
 Fixpoint unv_trace (ops : list op) (st : list (N * entry)) : list out :=
   match ops with
@@ -82,6 +108,9 @@ Definition model_ok (c : c01case) : bool :=
   | CDag g keys v fuel o => obs_matches o (read (parents_of g) (kvv_of keys) fuel fuel v)
   | CHist ops observed => all2 out_matches observed (trace ops core_init)
   | CUnv ops observed => all2 out_matches_unv observed (unv_trace ops [])
+  | CEnum g n codes =>
+    list_eqb N.eqb codes
+      (enum_codes (fun v keys => read (parents_of g) (kvv_of keys) (S n) (S n) v) n (3 ^ n) 0)
   end.
 
 (* property-level oracle: every observed read equals the frontier read of the specification,
@@ -112,6 +141,10 @@ Definition spec_class (c : c01case) : nat :=
     if obs_allowed o (frontier_read (parents_of g) (kvv_of keys) fuel v) then 0%nat else 1%nat
   | CHist ops observed => if hist_spec ops observed core_init then 0%nat else 1%nat
   | CUnv ops observed => if all2 out_matches_unv observed (unv_trace ops []) then 0%nat else 2%nat
+  | CEnum g n codes =>
+    if list_eqb N.eqb codes
+         (enum_codes (fun v keys => frontier_read (parents_of g) (kvv_of keys) (S n) v) n (3 ^ n) 0)
+    then 0%nat else 1%nat
   end.
 
 Fixpoint classify_from (i : nat) (l : list c01case) : list (nat * nat) :=
